@@ -1,6 +1,7 @@
 (* drv_local.ml -- model side of the "local" stream (local part of C01 and C10).
 
    case:    local R <zones> <cache> <questions> [<tag>]
+            local T <ms> <zones> <cache> <questions> [<tag>]   (clock advanced by <ms> ms after filling the cache)
      tag       = free text without spaces naming the generator family (ignored by the drivers)
      zones     = zone|zone|...            ("_" = no zone); inserted into Zones in this order
      zone      = <apex name>~<soa>~<ops>
@@ -101,7 +102,7 @@ let show_res f = function
   | Prelude.Panic -> "Panic"
   | Prelude.OutOfFuel -> "OutOfFuel"
 
-let run (zones : string) (cache : string) (questions : string) : string =
+let run ?(now = n0) (zones : string) (cache : string) (questions : string) : string =
   try
     let zs =
       if zones = "_" then []
@@ -110,8 +111,8 @@ let run (zones : string) (cache : string) (questions : string) : string =
     let c =
       List.fold_left (fun c r -> unres (CacheModel.shared_insert c n0 r)) CacheModel.cache_new (Vrr.rrs_of_tok cache)
     in
-    (* the cache read function at the fixed instant 0: SharedCache::get *)
-    let cget name qtype = snd (CacheModel.get c n0 name qtype) in
+    (* the cache read function at one fixed instant (0 for R; the advanced clock for T): SharedCache::get *)
+    let cget name qtype = snd (CacheModel.get c now name qtype) in
     String.concat "|"
       (List.map
          (fun qtok ->
@@ -126,4 +127,7 @@ let run (zones : string) (cache : string) (questions : string) : string =
 let handle (toks : string list) : string =
   match toks with
   | [ "R"; zones; cache; questions ] | [ "R"; zones; cache; questions; _ ] -> run zones cache questions
+  (* T <ms>: as R, but the virtual clock is advanced by <ms> milliseconds after the cache was filled *)
+  | [ "T"; ms; zones; cache; questions ] | [ "T"; ms; zones; cache; questions; _ ] ->
+    run ~now:(BinNat.N.mul (n_of_string ms) (n_of_int 1000000)) zones cache questions
   | _ -> failwith "local: bad case"
